@@ -213,12 +213,14 @@ def run(ck):
     # sort_interactions drops only empty types
     si = mol.func('Molecule.sort_interactions')
     ck.analysed(mol, si)
-    conts = stmts_with_env(si, lambda s: isinstance(s, ast.Continue))
     loops = [n for n in si.body if isinstance(n, ast.For)]
-    ok = len(conts) == 1 and len(loops) == 1 and u(loops[0].iter) == si.args.args[0].arg + '.items()'
+    ok = len(loops) == 1 and u(loops[0].iter) == si.args.args[0].arg + '.items()' and isinstance(loops[0].target, ast.Tuple)
     if ok:
-        c = conts[0][1]
-        ok = flow.equivalent(c, flow.NOT(('atom', ('truth', u(loops[0].target.elts[1])))))[0]
+        # a type gets its sort key exactly when its list is non-empty (guard clause or positive test, with or without a temporary)
+        tvar, lvar = [u(e) for e in loops[0].target.elts]
+        st_ = stmts_with_env(si, lambda s: isinstance(s, ast.Assign) and u(s.targets[0]) == 'sort_keys[{}]'.format(tvar), stmts=loops[0].body)
+        ok = len(st_) == 1 and flow.equivalent(st_[0][1], ('atom', ('truth', lvar)))[0] and \
+            u(flow.subst(st_[0][0].value, st_[0][2])) == '(len({}[0].atoms), {})'.format(lvar, tvar) and not any(isinstance(n, (ast.Break, ast.Return)) for n in ast.walk(loops[0]))
         ret = [s for s in si.body if isinstance(s, ast.Return)]
         ok = ok and len(ret) == 1 and 'sorted(sort_keys' in u(ret[0])
     ck.ob('MPT-all-interactions', mol.loc(si), ok, 'sort_interactions returns every interaction type that has at least one interaction', key='MPT-all-interactions|sort_interactions')
